@@ -198,11 +198,19 @@ pub fn write_snapshot(
     events: &[Event],
 ) -> io::Result<PathBuf> {
     let dir = dir.as_ref();
+    #[cfg(rip_verif)]
+    if rip_kernel::verif::fail("snap.write") {
+        return Err(io::Error::other("verif: injected snapshot write failure"));
+    }
     fs::create_dir_all(dir)?;
     let path = dir.join(format!("{session_id}.json"));
     let file = File::create(&path)?;
     #[cfg(rip_verif)]
     rip_kernel::verif::point("snap.created");
+    #[cfg(rip_verif)]
+    if rip_kernel::verif::fail("snap.write.body") {
+        return Err(io::Error::other("verif: injected snapshot write failure"));
+    }
     let mut writer = BufWriter::new(file);
     let payload = serde_json::to_string_pretty(events)
         .map_err(|err| io::Error::new(io::ErrorKind::InvalidData, err))?;
